@@ -1789,7 +1789,17 @@ class Segment(Element):
         return valid
 
     def _get_children(self, trailing=False):
-        children = self.children.get_ordered_children()
+        # every field goes to the position stated by its name (PID_5 -> fifth field): the structure of some
+        # segments skips withdrawn field numbers (e.g. DG1_6 is followed by DG1_15 in version 2.6), so the
+        # ordinal of a field in the structure is not its position
+        children = []
+        for name in (self.ordered_children or []):
+            try:
+                position = int(name[4:])
+            except ValueError:
+                position = len(children) + 1
+            children.extend([None] * (position - 1 - len(children)))
+            children.append(self.children.indexes.get(name, None))
         if self.allow_infinite_children:
             for i in xrange(self._last_allowed_child_index + 1, self._last_child_index + 1):
                 children.append(self.children.indexes.get('{}_{}'.format(self.name, i), None))
